@@ -4,8 +4,8 @@ from __future__ import annotations
 from checks import ctxcommon
 
 PROP = "C01"
-GENERATED = ['OpSemantics', 'DtypeTables', 'Core', 'EvalLoop', 'SrcExpand', 'SrcShape', 'DimFlags', 'ShapeLoop', 'ParserTables', 'TokLoop', 'ParseHelpers', 'ParseLoop', 'Wrapper', 'HintLoop', 'Classes', 'Decorate', 'SrcHints', 'SrcDecorate', 'ClassDecor']  # generated files this check's tie depends on
-LEAN_MODULES = ["Properties.C01", "Properties.C03p", "Properties.Core", "Properties.CoreEval", "Properties.Prov.Expand", "Properties.Prov.Shape", "Properties.CoreShape", "Properties.Tables", "Properties.CoreExpr", "Properties.CoreWrap", "Properties.CoreHints", "Properties.CoreClasses", "Properties.CoreDecorate", "Properties.Prov.Hints", "Properties.Prov.Decorate", "Properties.CoreClassDecor"]
+GENERATED = ['OpSemantics', 'DtypeTables', 'Core', 'EvalLoop', 'SrcExpand', 'SrcShape', 'DimFlags', 'ShapeLoop', 'ParserTables', 'TokLoop', 'ParseHelpers', 'ParseLoop', 'Wrapper', 'HintLoop', 'Classes', 'Decorate', 'SrcHints', 'SrcDecorate', 'ClassDecor', 'Resolve']  # generated files this check's tie depends on
+LEAN_MODULES = ["Properties.C01", "Properties.C03p", "Properties.Core", "Properties.CoreEval", "Properties.Prov.Expand", "Properties.Prov.Shape", "Properties.CoreShape", "Properties.Tables", "Properties.CoreExpr", "Properties.CoreWrap", "Properties.CoreHints", "Properties.CoreClasses", "Properties.CoreDecorate", "Properties.Prov.Hints", "Properties.Prov.Decorate", "Properties.CoreClassDecor", "Properties.CoreResolve"]
 RULE = (
     "corpus (witnesses of past findings) first; then seeded contexts: pick an assignment of sizes to names a,b,d (c,e derived) and tuples to "
     "groups g,h, pick 1-4 annotated tensors over a 24-form dimension alphabet (literal, name, name=literal, name=expression, expression, "
